@@ -2,6 +2,7 @@ import OmbottModel.Model.BodyMixin
 import OmbottModel.Lemmas.Body
 import OmbottModel.Lemmas.Chunked
 import OmbottModel.Lemmas.HexSpell
+import OmbottModel.Lemmas.BodyAccess
 import OmbottModel.Gen.Body
 /-!
 C05 — Chunked transfer decoding is exact and rejects every truncation.
@@ -191,6 +192,31 @@ theorem rejected_stays_rejected (q q1 : Req) (e : Err) (h : q.body = (.error e, 
             simp [Req.body, Req.loadBody, hcache]
           · cases hl
   · cases h
+
+/-- … over any sequence of later accesses by handler and hooks (`body.read(k)`,
+`_get_body_string`, exceptions caught): each of them raises that same error, and the request —
+in particular the position of the original stream — does not change any more. -/
+theorem rejected_forever (q q1 : Req) (e : Err) (h : q.body = (.error e, q1))
+    (ops : List Access) (hops : ∀ a ∈ ops, a.framework = true) (a : Access) (ha : a.framework = true) :
+    (q1.run ops).access a = (.error e, q1) := by
+  have hb := rejected_stays_rejected q q1 e h
+  have hacc : ∀ a : Access, a.framework = true → q1.access a = (.error e, q1) := by
+    intro a ha
+    cases a with
+    | inputRead => cases ha
+    | bodyRead n => simp [Req.access, hb]
+    | bodyString => simp [Req.access, Req.getBodyString, hb]
+  have hrun : ∀ ops : List Access, (∀ a ∈ ops, a.framework = true) → q1.run ops = q1 := by
+    intro ops
+    induction ops with
+    | nil => intro _; rfl
+    | cons b bs ih =>
+      intro hfw
+      have : q1.run (b :: bs) = (q1.access b).2.run bs := by simp [Req.run]
+      rw [this, hacc b (hfw b (by simp))]
+      exact ih (fun x hx => hfw x (by simp [hx]))
+  rw [hrun ops hops]
+  exact hacc a ha
 
 /-- `4xx` -/
 def is4xx : Err → Bool
